@@ -1,9 +1,13 @@
 #!/usr/bin/env bash
-# Run once after a fresh restore, offline: warm the Go build cache for the repository and the harness.
+# Run once after a fresh restore, offline: warm the Go build cache for the repository, the race
+# runtime and the rewriting tools. Nothing is installed; every check rebuilds what it needs.
 set -u
 cd "$(dirname "$0")"
 export GOFLAGS=-mod=mod GOPROXY=off
 unset GOSUMDB GOTOOLCHAIN 2>/dev/null || true
 (cd /repo && go build ./... ) || { echo "repository does not build" >&2; exit 1; }
-chmod +x ./check
+(cd /repo && go build -race -o /dev/null ./cmd/emerge) || echo "warning: race build cache could not be warmed" >&2
+(cd tools/simrewrite && go build -o /dev/null .) || { echo "simrewrite does not build" >&2; exit 1; }
+(cd tools/maprange && go build -o /dev/null .) || { echo "maprange does not build (x/tools v0.29.0 must be in the module cache)" >&2; exit 1; }
+chmod +x ./check tools/*.sh
 exit 0
